@@ -51,6 +51,20 @@ OPTIONS = {
 }
 
 
+# shapes of the source file (pseudo-options "shape:<name>"): the prediction must not depend on line endings, a BOM, a
+# missing final newline, or on a sibling the codemod cannot parse
+SHAPES = {
+    "crlf": lambda b: b.replace(b"\n", b"\r\n"),
+    "cr": lambda b: b.replace(b"\n", b"\r"),
+    "mixed-eol": lambda b: b.replace(b"\n", b"\r\n", 1),
+    "nofinal": lambda b: b.rstrip(b"\n"),
+    "bom": lambda b: b"\xef\xbb\xbf" + b,
+    "formfeed": lambda b: b + b"\x0c\nX = 1\n",
+    "unparseable-sibling": None,
+    "second-file": None,
+}
+
+
 def manifest_combos():
     keys = list(MANIFEST_DIMS)
     for idx in itertools.product(*[range(len(MANIFEST_DIMS[k])) for k in keys]):
@@ -89,7 +103,17 @@ def configs(tier):
             out.append((key, c, ()))
         out.append((key, (1, 0, 0, 0), ("workers4",)))
         out.append((key, (1, 0, 0, 0), ("verbose",)))
+    for key in CODEMODS:
+        for sh in SHAPES:
+            if key == "sonar" and sh in ("second-file", "unparseable-sibling"):
+                continue  # the result file names app.py only
+            out.append((key, (1, 0, 0, 0), (f"shape:{sh}",)))
     if tier == "thorough":
+        for key in CODEMODS:
+            for sh in SHAPES:
+                if key == "sonar" and sh in ("second-file", "unparseable-sibling"):
+                    continue
+                out += [(key, (0, 0, 0, 0), (f"shape:{sh}",)), (key, (1, 1, 1, 1), (f"shape:{sh}", "workers4"))]
         for c in combos:
             for o in optsets1:
                 out.append(("dep-detectorless", c, o))
@@ -114,8 +138,18 @@ def jobs_for(cfg):
         argv += ["--sonar-hotspots-json", "{res:hotspots.json}"]
         results["hotspots.json"] = json.dumps(doc).encode()
     for o in opts:
-        argv += OPTIONS[o]
+        if not o.startswith("shape:"):
+            argv += OPTIONS[o]
     files = project(cm_key, combo)
+    for o in opts:
+        if o.startswith("shape:"):
+            name = o.split(":", 1)[1]
+            if name == "unparseable-sibling":
+                files["pkg/broken.py"] = files["app.py"] + b"def (:\n"
+            elif name == "second-file":
+                files["pkg/deep/again.py"] = files["app.py"]
+            else:
+                files["app.py"] = SHAPES[name](files["app.py"])
     outside = {"sibling.py": CODEMODS[cm_key][1], "requirements.txt": b"requests\n"}
     dry = drive.Job(files=files, argv=argv + ["--dry-run"], results=results, outside=outside, snapshot_meta=True)
     real = drive.Job(files=files, argv=argv, results=results, outside=outside)
@@ -236,6 +270,7 @@ def explore(tier, seed):
         "real_run_changed_something": nontrivial,
         "manifest_combinations": len(list(manifest_combos())),
         "option_alphabet": sorted(OPTIONS),
+        "source_file_shapes": sorted(SHAPES),
         "max_non_default_options": 1 if tier == "quick" else 2,
         "codemod_kinds": {k: v[0] for k, v in CODEMODS.items()},
         "cli_conformance_replays": conf,
